@@ -279,4 +279,48 @@ theorem arun_latest (a : A α) (h : ConsW a) (O : List (Out α)) (P : List α)
       rw [hpo, List.append_nil, items_append, List.append_assoc, ← hl]
       exact getLast?_append_congr _ _ _ hc
 
+theorem latest_cases (a : A α) (hw : ConsW a) (L : List α) (m : α)
+    (h : (L ++ astored a).getLast? = some m) : a.slot = .result m ∨ L.getLast? = some m := by
+  obtain ⟨slot, d, c⟩ := a
+  cases slot with
+  | result m1 =>
+    left
+    cases c with
+    | onOld c => cases c <;> simp [astored, List.getLast?_append] at h <;> simp [h]
+    | idle => simp [astored, List.getLast?_append] at h; simp [h]
+    | onSlot => simp [astored, List.getLast?_append] at h; simp [h]
+  | pending =>
+    right
+    cases c with
+    | onOld c =>
+      cases c with
+      | result m0 => obtain ⟨m1, hm1⟩ := hw m0 rfl; cases hm1
+      | pending => simpa [astored] using h
+      | exc e => simpa [astored] using h
+      | cancelled => simpa [astored] using h
+    | idle => simpa [astored] using h
+    | onSlot => simpa [astored] using h
+  | exc e' =>
+    right
+    cases c with
+    | onOld c =>
+      cases c with
+      | result m0 => obtain ⟨m1, hm1⟩ := hw m0 rfl; cases hm1
+      | pending => simpa [astored] using h
+      | exc e => simpa [astored] using h
+      | cancelled => simpa [astored] using h
+    | idle => simpa [astored] using h
+    | onSlot => simpa [astored] using h
+  | cancelled =>
+    right
+    cases c with
+    | onOld c =>
+      cases c with
+      | result m0 => obtain ⟨m1, hm1⟩ := hw m0 rfl; cases hm1
+      | pending => simpa [astored] using h
+      | exc e => simpa [astored] using h
+      | cancelled => simpa [astored] using h
+    | idle => simpa [astored] using h
+    | onSlot => simpa [astored] using h
+
 end Aiocoap.Observe.Iter
